@@ -8,6 +8,7 @@ import Proofs.C16_Image
 import Proofs.C16_ApiSpec
 import Proofs.C16_Example
 import Proofs.C16_ConvSpec
+import Proofs.Pins
 namespace Mammoth
 
 /-! ### `unique`: reported ONCE -/
@@ -791,5 +792,15 @@ example : c16_xmlCleanL {} (c16_exBody []) = false := by decide +kernel   -- sty
 example : c16_xmlCleanL {} [c16_exPara [c16_exTxt S!"x"], c16_exEl S!"w:tbl" [c16_exEl S!"w:tr" [c16_exEl S!"w:tc" [c16_exPara []]]]] = true := by
   decide +kernel
 example : c16_xmlCleanL {} [c16_exEl S!"w:tbl" [c16_exEl S!"w:tr" [c16_exPara []]]] = false := by decide +kernel
+
+/-- The tables of the library that this property's theorems consume (regenerated from /repo's source on this run) still have the
+    content the model was validated against: the reader's dispatch table; the set of deliberately ignored elements; the browser-friendly image types; the dingbat table (entries and checksums).  An edit of one of them in the library changes model and code
+    alike; it is this theorem that then no longer checks (`Proofs/Pins.lean`). -/
+theorem C16_tables_as_validated :
+    (Generated.handlers = pin_handlers) ∧
+    (sameSet Generated.ignored pin_ignored = true) ∧
+    (sameSet Generated.browserImageTypes pin_browserImageTypes = true) ∧
+    (dingbatSums Generated.dingbats = (1061, 217117, 77998056)) :=
+  ⟨pins_handlers, pins_ignored, pins_browserImageTypes, pins_dingbats⟩
 
 end Mammoth
